@@ -11,8 +11,9 @@ for i,m in enumerate(ms):
 PY
 ls $T/*.json | xargs -P $P -I{} sh -c '${XKV_BIN:-/verif/bin/xkvlint} -prop matrix -repo ${XKV_REPO:-/repo} -overlay {} > {}.out 2>&1; echo $? > {}.rc'
 python3 - "$T" <<'PY'
-import json,sys,glob,re
+import json,sys,glob,re,os
 bad=0
+upd={}
 for f in sorted(glob.glob(sys.argv[1]+"/*.json")):
     m=json.load(open(f)); out=open(f+".out").read(); rc=open(f+".rc").read().strip()
     fails=[l.split() for l in out.splitlines() if re.match(r"^C\d+ (VIOLATED|UNDECIDED)",l)]
@@ -25,8 +26,20 @@ for f in sorted(glob.glob(sys.argv[1]+"/*.json")):
         ok=bool(hit); verdict="caught" if ok else ("caught-other-rule" if any(p in m["props"] for p,_ in pairs) else ("TOOL-FAILURE" if rc not in("0","1") else "MISSED"))
         ok = ok
     if not ok: bad+=1
+    if os.environ.get("WRITE_PROPS") and not m.get("control") and hit:
+        allp=sorted({l.split()[0] for l in out.splitlines() if re.match(r"^C\d+ (VIOLATED|UNDECIDED)",l) and (not want or l.split()[2]==want) and m.get("construct_contains","") in l})
+        upd[m["id"]]=sorted(set(m["props"])|set(allp))
     print(f'{m["id"]:45s} {verdict:18s} rc={rc} {" ".join(p+":"+r for p,r in pairs)[:160]}')
     if rc not in ("0","1"): print("   ", out.strip().splitlines()[-1][:300] if out.strip() else "")
+if upd: json.dump(upd,open(sys.argv[1]+'/props_update.json','w'))
 sys.exit(1 if bad else 0)
 PY
-rc=$?; rm -rf $T; exit $rc
+rc=$?
+if [ -f $T/props_update.json ]; then python3 - "$F" $T/props_update.json <<'PY2'
+import json,sys
+ms=json.load(open(sys.argv[1])); u=json.load(open(sys.argv[2]))
+for m in ms:
+    if m['id'] in u: m['props']=u[m['id']]
+json.dump(ms,open(sys.argv[1],'w'),indent=1,ensure_ascii=False)
+PY2
+fi; rm -rf $T; exit $rc
